@@ -1,9 +1,10 @@
 #!/usr/bin/env python3
-"""Prints the measured-throughput table (markdown) from /verif/evidence/*.json."""
-import json, glob, os
+"""Prints the measured-throughput table (markdown) from /verif/<dir>/*.json (default: evidence)."""
+import json, glob, os, sys
 HERE = os.path.dirname(os.path.dirname(os.path.abspath(__file__)))
 rows = []
-for f in sorted(glob.glob(os.path.join(HERE, "evidence", "C*.json"))):
+DIR = sys.argv[1] if len(sys.argv) > 1 else "evidence"
+for f in sorted(glob.glob(os.path.join(HERE, DIR, "C*.json"))):
     e = json.load(open(f)); c = e["coverage"]
     faults = c.get("fault_and_event_counts_fired", {})
     fk = [k for k in faults if k in ("deliver", "dup", "drop", "partition", "crash_restart", "attach", "drop_view", "drop_owner", "skew_merge", "law", "ctor", "inject")
